@@ -93,6 +93,10 @@ def check_running(case, ctx):
         i = int(np.argmax(np.abs(out - r)))
         raise Violation("running:values", f"n={n} w={w} {method} {case['dtype']} kind={case['kind']} seed={case['seed']}: "
                         f"out[{i}]={out[i]!r} window {method} {r[i]!r}")
+    # the result belongs to the caller: a later call on other data of the same size must not change it
+    snap = np.array(out, copy=True)
+    stats.running_filter(np.ascontiguousarray(x[::-1]) + x.dtype.type(1), w, method=method)
+    require(np.array_equal(out, snap, equal_nan=True), "running:earlier-result-changed-by-later-call", f"n={n} w={w} {method} {case['dtype']}")
     labels = [method, case["dtype"], "even_w" if w % 2 == 0 else "odd_w"]
     if w > n:
         labels.append("w>n")
